@@ -14,6 +14,11 @@ code -> spec : every executed read is projected to (which columns, which origina
                decomposition the concatenation law gives) are executed too; a long result is
                projected to the run-length form of the original row numbers (cells are counters,
                every cell is identified) and judged by the same trace module.
+               Object lifetime (NextLife: heap of handle -> reader <- selection object, reference dropping and the
+               collector as actions; LifeRefines): exported behaviours in which the caller keeps h[columns] and lets
+               go of the handle (temporary of the expression, local of a helper, del, reference cycle + gc.collect())
+               are executed with the real reference counting / collector; every read through the selection object is
+               judged by the trace module, for which the caller's lifetime steps are stutter steps (HLife).
 Python never decides what a read should return: TLC does (Select.tla: FailingT).
 """
 import hashlib
@@ -1361,25 +1366,29 @@ def run(ctx):
                     "row lists and unknown column names interleaved, other handles on the file opened and dropped meanwhile), every read "
                     "judged as now; %d scale cases on tables of %s rows with 12-, 16- and 20-byte rows (slices with step in %s and "
                     "run-length row lists across and at the 2^16 / 2^17 / 1 MiB-block row boundaries, each slice also as the block "
-                    "sub-slices the concatenation law gives; binary, and text for one table), judged in run-length form. A case is "
+                    "sub-slices the concatenation law gives; binary, and text for one table), judged in run-length form; %d lifetime "
+                    "behaviours of %d steps (open, v = h[columns], reads through h and v, the handle let go of as a temporary / "
+                    "local of a helper / del / member of a reference cycle, gc.collect(), reads through v; SFile and Recfile, "
+                    "binary and text). A case is "
                     "distinct by (table layout, n, file form, handle, request, style, argument container variant); every one selects "
                     "from a non-empty table" %
                     (B["MaxN"], ",".join(str(x) for x in sorted(B["Steps"])), B["MaxListLen"], NL3, len(behs), B["MaxReads"],
                      nrand, maxn, len(hists), B["HistLen"], nbig, ",".join(str(x) for x in sorted(B["ScaleNs"])),
-                     ",".join(str(x) for x in sorted(B["ScaleSteps"]))))
+                     ",".join(str(x) for x in sorted(B["ScaleSteps"])), len(lifes), B["LifeLen"]))
         # the first case listed per signature should be a readable one: prefer 3-4 rows and short sessions
         ctx.violations.sort(key=lambda v: (v[0], abs(v[2].get("n", 0) - 3), len(v[2].get("events", []))))
         ctx.exhaustive = True
         ctx.note(bounds={k: sorted(v) if isinstance(v, set) else v for k, v in B.items()}, row_cases=len(rowcases),
                  column_cases=len(colcases), behaviours=len(behs), handle_sessions=len(done), reads=nev,
                  fixtures=len(FIX), long_histories=len(hists), reads_per_long_history=B["HistLen"], scale_cases=nbig,
-                 scale_compositions_checked=ncomp)
+                 scale_compositions_checked=ncomp, lifetime_behaviours=len(lifes))
         ctx.assumptions = [
             "the fully-read table is the reference (its faithfulness to what was written is C01/C04; the fixtures are verified to read back as written)",
             "cells are unique tokens, so a result is identified with (columns, original row indices, form); an empty plain array is attributed to the requested column when its dtype fits",
             "scalar rows outside [-n, n) are outside the quantifier (unconstrained); negative entries inside a row list and the empty row list may be rejected or served as numpy would",
             "reduce=True on a selection that is not exactly one structured column must leave the result as it is (the docstring's only reading besides reducing)",
             "a column name that is not in the table, and a run-length row list with negative or interleaved runs, are outside the statement (any outcome); the calls are made all the same, as steps of the history",
+            "a selection object h[columns] the caller still holds stands for the stored table whatever became of the caller's names of the handle (temporary, helper local, del, collected); after an explicit close() the statement is silent - close() is never part of an exported lifetime behaviour",
             "long tables carry counter cells (every column strictly increasing), so the original row of every returned cell is identified exactly; the rows are handed to TLC in run-length form",
         ]
     finally:
